@@ -205,6 +205,7 @@ def authSeqH : Handler := fun inp impl => do
   let opsJ := ((inp.getObjVal? "ops").toOption.bind (fun j => j.getArr?.toOption)).getD #[]
   let ops : List AuthOp := opsJ.toList.map (fun o =>
     if getStrD o "op" == "reload" then .reload (secretsOf ((o.getObjVal? "secrets").toOption.getD Json.null))
+    else if getStrD o "op" == "remove" then .reload []   -- the file is gone: the refresh clears the credentials
     else .attempt (credOf o))
   let verdicts := runAuth secrets0 ops
   let m := Json.mkObj [("verdicts", Json.arr (verdicts.map (fun b => Json.bool b)).toArray)]
@@ -229,6 +230,7 @@ def authSeqH : Handler := fun inp impl => do
         collides file (if basicVerdict file (some (u, p)) then (u, p) :: seen else seen) h
   let hasReload := ops.any (fun o => match o with | .reload _ => true | _ => false)
   let tag := if collides secrets0 [] ops then "concat-collision-after-valid-login"
+    else if opsJ.any (fun o => getStrD o "op" == "remove") then "file-removed"
     else if hasReload then "reload" else "plain"
   return ({ model := m, agree := some verdicts == iv, spec := spec,
             nontrivial := verdicts.contains true && verdicts.contains false, tag := tag } : Verdict).toJson
